@@ -297,8 +297,8 @@ var chainRng = rand.New(rand.NewSource(seed()))
 // registration must accept it iff the model says so; an accepted chain must run in order and Abort() at its first
 // handler must stop it.
 func chainLimit(s *Summary, n int, accepted bool) {
-	for _, via := range []string{"GET", "group+GET", "group+prebuilt route", "group+Any"} {
-		viaGroup := via != "GET"
+	for _, via := range []string{"GET", "group+GET", "group+prebuilt route", "group+Any", "GET, then a Use() on the live route that is refused"} {
+		viaGroup := strings.HasPrefix(via, "group")
 		for _, abortFirst := range []bool{false, true} {
 			log := []int{}
 			aborted := []bool{}
@@ -332,7 +332,15 @@ func chainLimit(s *Summary, n int, accepted bool) {
 						}
 					}, mw[:half]...)
 				} else {
-					r.GET("/g/x", mk(n), mw...)
+					rt := r.GET("/g/x", mk(n), mw...)
+					if via != "GET" {
+						// a plugin tries to add more middleware than the limit allows to the registered route: refused, and the
+						// route stays what it was
+						func() {
+							defer func() { _ = recover() }()
+							rt.Use(make([]rux.HandlerFunc, 70)...)
+						}()
+					}
 				}
 			}()
 			s.Compared++
